@@ -154,6 +154,18 @@ fn ask(x: &Value, y: &Value, op: &str, st: &mut Stats) -> Result<Value, Violatio
     }
 }
 
+/// the operator that gives the same answer with the operands exchanged
+fn conv_of(op: &str) -> &'static str {
+    match op {
+        "<" => ">",
+        "<=" => ">=",
+        ">" => "<",
+        ">=" => "<=",
+        "==" => "==",
+        _ => "!=",
+    }
+}
+
 fn is_num(v: &Value) -> bool {
     v.is_number()
 }
@@ -238,6 +250,40 @@ pub fn check_pair(x: &Value, y: &Value, st: &mut Stats) {
         if let (Ok(a), Ok(b)) = (a, b) {
             if a != b {
                 bad("C10/symmetry", op, format!("x {} y == y {} x", op, conv), format!("{} vs {}", a, b), st);
+            }
+        }
+    }
+    // mixed presentations: one operand a literal, the other a document node (either side), and the comparison as
+    // the predicate of a filter with a literal / a node on the right -- each must give what 'l OP r' gives
+    {
+        let doc = json!({"l": x, "r": y});
+        for (i, op) in OPS.iter().enumerate() {
+            let want = &res[i];
+            for e in [format!("{} {} r", lit(x), op), format!("l {} {}", op, lit(y)), format!("({}) {} (r)", lit(x), op), format!("@.l {} {}", op, lit(y))] {
+                st.evaluations += 1;
+                st.validated += 1;
+                st.transitions += 1;
+                let o = impl_search(&e, &doc);
+                if !matches!(&o, Out::Value(v, false) if v == want) {
+                    bad("C10/mixed-presentation", &e, want.to_string(), o.brief(), st);
+                }
+            }
+            // as a filter predicate: the element is kept exactly when the comparison is truthy (true); x is null -> dropped by the projection
+            let t = *want == json!(true);
+            let keep = t && !x.is_null();
+            for (e, expect) in [
+                (format!("[l][?@ {} {}]", op, lit(y)), if keep { json!([x]) } else { json!([]) }),
+                (format!("[l][?{} {} @]", lit(y), conv_of(op)), if keep { json!([x]) } else { json!([]) }),
+                (format!("[[l, r]][?[0] {} [1]] | [0][0]", op), if t { x.clone() } else { Value::Null }),
+                (format!("[l][?@ {} {}] | [0]", op, lit(y)), if keep { x.clone() } else { Value::Null }),
+            ] {
+                st.evaluations += 1;
+                st.validated += 1;
+                st.transitions += 1;
+                let o = impl_search(&e, &doc);
+                if !matches!(&o, Out::Value(v, false) if serde_json::to_string(v).unwrap() == serde_json::to_string(&expect).unwrap()) {
+                    bad("C10/filter-presentation", &e, format!("{} (the comparison gives {})", expect, want), o.brief(), st);
+                }
             }
         }
     }
